@@ -32,7 +32,8 @@ part of the model (`Except`) and is tied to the code by the correspondence.
                             (string / bool replacement values: `RowWiseReplOn`, `Val.StrSafe`)
 * `C02_slices_replace_nonempty_batches`  the batch-independent form needs the slice value only in the batches
                             that have rows (empty batches never matter): narrows F-C02-replace-absent
-* `C02_replace_exact_np`, `C02_replaced_row_is_value`, `C02_replace_plain_safe`, `C02_replace_exact_list`
+* `C02_replace_exact_np`, `C02_replaced_row_is_value`, `C02_replace_plain_safe`, `C02_replace_exact_list`,
+  `C02_replace_exact_ndarray_listmask`
                             values are heterogeneous scalars (int | float | str | bool | None): in replace mode every
                             replaced entry is EXACTLY the replacement value and every kept entry is untouched — for the
                             numpy path whenever numpy's common dtype is not a string dtype forced on non-strings (always for
@@ -462,6 +463,20 @@ theorem C02_replace_exact_list {r : Scalar} {xs : List Val} {ms : List Mask} {y 
   obtain ⟨h2, h3, h4⟩ := applySeq_replace_exact r xs ms ys h1
   exact ⟨ys, rfl, h2, h3, h4⟩
 
+/-- **Element-wise path on an ndarray column** (list mask; the result is rebuilt by `np.asarray`): the same
+exactness as for a list column whenever the dtype numpy infers for the result is not a string dtype forced
+on non-strings (e.g. int column and 0.5, bool column and `None`, string column and `'<pad>'`). -/
+theorem C02_replace_exact_ndarray_listmask {r : Scalar} {xs : List Val} {ms : List Mask} {y : Val}
+    (h : applyMask (some r) (.seq true xs) (.seq ms) = .ok y)
+    (hsafe : ∀ ys, applySeq (some r) xs ms = .ok ys →
+      inferDType (scalarsList ys) ≠ .str ∨ ∀ s ∈ scalarsList ys, s.dtype = .str) :
+    ∃ ys, y = .seq true ys ∧ ys.length = xs.length ∧ ms.length = xs.length ∧
+      ∀ i : Nat, (ms[i]? = some Mask.ff → ys[i]? = some r.toVal) ∧ (ms[i]? = some Mask.tt → ys[i]? = xs[i]?) := by
+  obtain ⟨ys, h1, rfl⟩ := applyMask_ndarray_ok h
+  obtain ⟨h2, h3, h4⟩ := applySeq_replace_exact r xs ms ys h1
+  rw [npCast_infer_id (hsafe ys h1)]
+  exact ⟨ys, rfl, h2, h3, h4⟩
+
 /-! ### non-vacuity: the hypotheses are met by the aggregate and the decoder used in the tie -/
 
 /-- the concrete aggregate of the correspondence (`Stat`, any view) is lawful -/
@@ -510,6 +525,12 @@ example : applyNp (some .none) [false, true] [.seq true [.leaf 1, .leaf 2], .seq
 example : applyMask (some (.flt 5 1)) (.seq false [.leaf 1, .leaf 9]) (.seq [.tt, .ff])
     = .ok (.seq false [.leaf 1, .leaf (.flt 5 1)]) := by
   simp [applyMask, applySeq, rewrap, Except.map, Scalar.toVal]
+
+/-- an int ndarray column under a list mask with 0.5: numpy infers float64, nothing is converted -/
+example : applyMask (some (.flt 5 1)) (.seq true [.leaf 1, .leaf 9]) (.seq [.tt, .ff])
+    = .ok (.seq true [.leaf 1, .leaf (.flt 5 1)]) := by
+  simp [applyMask, applySeq, rewrap, Except.map, Scalar.toVal, Val.shape?, shapes, npCast, inferDType,
+    scalarsList, Val.scalars, Scalar.dtype, DType.infer]
 
 example : exPipeline.WF := exPipeline_WF
 example : exPipeline.validate = .ok () := rfl
